@@ -34,7 +34,8 @@ structure T where
 inductive Ev
   | step      -- the loop runs the queued __step / __wakeup of this task
   | timer     -- the loop runs the sleep's timer handle (skipped if that handle was cancelled)
-  | bodyEnd   -- `_on_timeout` returns (or raises)
+  | bodyEnd   -- `_on_timeout` returns
+  | bodyRaise -- `_on_timeout` raises: the Task gets the exception, `_must_cancel` or not
   | cancel    -- Task.cancel() — from pop / clear / shutdown via cancel_pending_task
   deriving DecidableEq, Repr
 
@@ -58,6 +59,10 @@ def step (t : T) : Ev → T
   | .bodyEnd =>
     match t.phase with
     | .running => if t.mustCancel then { t with phase := .cancelled, mustCancel := false } else { t with phase := .finished }
+    | _ => t
+  | .bodyRaise =>
+    match t.phase with
+    | .running => { t with phase := .finished, mustCancel := false }
     | _ => t
   | .cancel =>
     if isDone t then t
